@@ -14,7 +14,7 @@ from collections import Counter
 import networkx as nx
 
 from ..common import Result, sut, digest
-from ..taps import RandomTap, installed
+from ..taps import RandomTap, installed, reseed_bits
 from ..graphs import MonitoredGraph, snapshot, same_snapshot
 from ..stats import two_stage, binom_pmf
 
@@ -135,6 +135,11 @@ def one_call(res, g, phi, tap, ctx, mg=None):
         S = float(S)
     except Exception:
         res.violate("return-value-not-a-number", got=repr(S), ctx=ctx); return None
+    b = reseed_bits(tap)
+    if b is not None and 0 < phi < 1 and min(len(edges), 128) > b + 1:     # 128 bits and more are as good as the source itself
+        res.violate("percolation-reseeds-its-random-source-with-fewer-bits-than-the-edge-configurations-need", seed_bits=b, edges=len(edges),
+                    note="each of the 2**|E| retained-edge sets has positive probability under independent retention; after the re-seed at most 2**%d of them can occur" % b, ctx=ctx)
+        return None
     k = S * N
     if not (abs(k - round(k)) < 1e-9 and 1 <= round(k) <= N):
         res.violate("return-value-not-a-multiple-of-1/N-in-range", got=S, N=N, ctx=ctx); return None
